@@ -159,18 +159,24 @@ func c20Pump(c *Ctx, run *ev.Run) {
 	}
 	defer os.RemoveAll(dir)
 	type cmdT struct {
-		Op       string `json:"op"`
-		Results  int    `json:"results"`
-		ErrEvery int    `json:"err_every"`
+		Op        string `json:"op"`
+		Results   int    `json:"results"`
+		ErrEvery  int    `json:"err_every"`
+		FailWrite int    `json:"fail_write"`
 	}
-	cmds := []cmdT{{"pump", 100, 0}, {"pump", 5000, 3}, {"pump", 30000, 7}, {"pump", 1, 1}}
+	cmds := []cmdT{{"pump", 100, 0, 0}, {"pump", 5000, 3, 0}, {"pump", 30000, 7, 0}, {"pump", 1, 1, 0},
+		// the output starts failing at some write: every result the pump took before giving up was observed
+		{"pump", 50, 4, 3}, {"pump", 50, 0, 9}, {"pump", 400, 5, 120}, {"pump", 10, 1, 1}}
 	if !c.Quick() {
-		cmds = append(cmds, cmdT{"pump", 200000, 2}, cmdT{"pump", 60000, 0}, cmdT{"pump", 1025, 5}, cmdT{"pump", 2049, 1})
+		cmds = append(cmds, cmdT{"pump", 200000, 2, 0}, cmdT{"pump", 60000, 0, 0}, cmdT{"pump", 1025, 5, 0}, cmdT{"pump", 2049, 1, 0})
+		for k := 1; k <= 40; k++ {
+			cmds = append(cmds, cmdT{"pump", 60, 3, k})
+		}
 	}
 	in, out := filepath.Join(dir, "in"), filepath.Join(dir, "out")
 	var sb bytes.Buffer
 	for _, cm := range cmds {
-		fmt.Fprintf(&sb, `{"op":%q,"results":%d,"err_every":%d}`+"\n", cm.Op, cm.Results, cm.ErrEvery)
+		fmt.Fprintf(&sb, `{"op":%q,"results":%d,"err_every":%d,"fail_write":%d}`+"\n", cm.Op, cm.Results, cm.ErrEvery, cm.FailWrite)
 	}
 	_ = os.WriteFile(in, sb.Bytes(), 0o644)
 	ex := exec.Command(c.Bin("probe.test"), "-test.run", "^TestVerifProbe$", "-test.count=1")
@@ -198,12 +204,29 @@ func c20Pump(c *Ctx, run *ev.Run) {
 			ObservedIn    float64 `json:"observed_bytes_in"`
 			ObservedOut   float64 `json:"observed_bytes_out"`
 			ObservedFail  float64 `json:"observed_fail"`
+			Taken         int     `json:"taken"`
 		}
 		if err := json.Unmarshal(l, &a); err != nil {
 			run.Inconclusive("bad probe answer")
 			continue
 		}
 		n := cmds[i].Results
+		if cmds[i].FailWrite > 0 {
+			// the run ends with a write error; what counts is what the pump took from the channel
+			run.Eval(1)
+			run.Count("pump_runs_with_failing_output", 1)
+			det := map[string]any{"results_fed": n, "fail_write": cmds[i].FailWrite, "answer": json.RawMessage(l)}
+			switch {
+			case a.Panic != "":
+				run.Violate("C20/pump/error", fmt.Sprintf("result pump with an output failing at write %d panics: %s", cmds[i].FailWrite, a.Panic), det)
+			case a.Err == "" && a.Written != n:
+				run.Violate("C20/pump/write-error-swallowed", fmt.Sprintf("result pump reported success although its output failed at write %d: %d of %d results written", cmds[i].FailWrite, a.Written, n), det)
+			case int(a.ObservedCount) != a.Taken:
+				run.Violate("C20/pump/results-not-observed", fmt.Sprintf("the result pump took %d results before its output failed at write %d, the metrics report %d samples", a.Taken, cmds[i].FailWrite, a.ObservedCount), det)
+			}
+			run.Distinct(fmt.Sprintf("pump-fail:%d:%d", n, cmds[i].FailWrite))
+			continue
+		}
 		var wantIn, wantOut, wantFail float64
 		for k := 0; k < n; k++ {
 			wantIn += float64(10 + k%5)
